@@ -66,3 +66,30 @@ fn("engine/default.py::DefaultDialect._set_connection_characteristics", cls="Dia
    # nothing is scheduled twice or dropped when the call is refused
    exc_ensures={"Exception": ["contents(connection.connection._connection_record.finalize_callback) == old(contents(connection.connection._connection_record.finalize_callback))"]},
    modifies=["contents(connection.connection._connection_record.finalize_callback)"])
+
+# ---- the scheduled reset itself: every characteristic that was set on the connection is reset, each exactly once, on THAT
+# dbapi connection (ghost log of reset calls on the dialect).  A characteristic name that the dialect does not know cannot have
+# been scheduled (set_connection_execution_options intersects with connection_characteristics): precondition.
+from pyvc.contract import CLASSES as _CLS  # noqa: E402
+_CLS["DialectX"].fields.update({"_g_resets": "seqv"})
+fn("engine/characteristics.py::ConnectionCharacteristic.reset_characteristic@log", abstract=True, params=["characteristic", "dialect", "dbapi_conn"],
+   types={"dialect": "DialectX"}, returns="none", modifies=["dialect._g_resets"],
+   ensures=["dialect._g_resets == old(dialect._g_resets) + [pair(characteristic, dbapi_conn)]"], may_raise={"Exception": "True"},
+   exc_ensures={"Exception": ["dialect._g_resets == old(dialect._g_resets) + [pair(characteristic, dbapi_conn)]"]},
+   notes="characteristic.reset_characteristic(dialect, dbapi_conn): logged (ghost), may raise")
+CC = "self.connection_characteristics"
+fn("engine/default.py::DefaultDialect._reset_characteristics", cls="DialectX", props=["C24"], returns="none",
+   types={"characteristics": "dict", "characteristic_name": "v", "characteristic": "v", "dbapi_connection": "v", "z": "tupleval"},
+   callees={"characteristic.reset_characteristic": dict(fn="engine/characteristics.py::ConnectionCharacteristic.reset_characteristic@log",
+                                                        args=["characteristic", "$0", "$1"])},
+   requires=["all(dhas(" + CC + ", k) for k in keys(characteristics))", "len(self._g_resets) == 0", "characteristics is not " + CC],
+   invariant={0: ["len(self._g_resets) == _i",
+                  "all(self._g_resets[j] == pair(dget(" + CC + ", keys(characteristics)[j]), dbapi_connection) for j in range(_i))"]},
+   loop_modifies={0: ["self._g_resets"]},
+   ensures=["len(self._g_resets) == len(keys(characteristics))",
+            "all(self._g_resets[j] == pair(dget(" + CC + ", keys(characteristics)[j]), dbapi_connection) for j in range(len(keys(characteristics))))"],
+   may_raise={"Exception": "True"},
+   # a failing reset stops the run: what was reset is a prefix, never a characteristic twice, never on another connection
+   exc_ensures={"Exception": ["len(self._g_resets) <= len(keys(characteristics))",
+                              "all(self._g_resets[j] == pair(dget(" + CC + ", keys(characteristics)[j]), dbapi_connection) for j in range(len(self._g_resets)))"]},
+   modifies=["self._g_resets"])
